@@ -21,9 +21,9 @@ CONSTANTS
   MaxNow = 1
   Senders = {"u1"}
   Recipients = {"u1", "u2", "feepool", "module"}
-  MaxSteps = 6
-  DonateAlso = {"module"}
-  WithUni = TRUE
+  MaxSteps = 5
+  DonateAlso = {"module", "feepool"}
+  WithUni = FALSE
 VIEW ViewDepth
 INVARIANTS
   Inv_C02_Conservation
